@@ -131,3 +131,7 @@ Ltac unfold_quat :=
        quat_add quat_sub quat_mul_s quat_div_s quat_rem_s quat_smul quat_sdiv quat_mul quat_mul_v
        quat_dot quat_magnitude2 quat_distance2 quat_lerp quat_rotate_vector quat_rotate_point
        quat_invert m3_of_quat m4_of_quat qv qs nat_c] in *.
+
+From CG Require Import Model.Projection.
+Ltac unfold_proj :=
+  cbv [m4_ortho m4_frustum m4_perspective m4_planar to_perspective guard abs_diff_ne_d nat_c] in *.
